@@ -24,7 +24,9 @@ type St struct {
 func (s *St) PC() *T { return s.pc }
 
 func (s *St) fork() *St {
-	n := &St{pc: s.pc, heap: s.heap.clone(), env: make(map[ssa.Value]Value, len(s.env)+8)}
+	parent := s.heap
+	s.heap = parent.child()
+	n := &St{pc: s.pc, heap: parent.child(), env: make(map[ssa.Value]Value, len(s.env)+8)}
 	for k, v := range s.env {
 		n.env[k] = v
 	}
